@@ -184,20 +184,20 @@ class Model():
 
         if not hasattr(asset, 'name'):
             asset.name = asset.type + ':' + str(asset.id)
-        else:
-            if asset.name in self.asset_names:
-                if allow_duplicate_names:
-                    # The name extended with the id can itself be in use
-                    # already, keep extending it until it is unique.
-                    new_name = asset.name + ':' + str(asset.id)
-                    while new_name in self.asset_names:
-                        new_name = new_name + ':' + str(asset.id)
-                    asset.name = new_name
-                else:
-                    raise ValueError(
-                        f'Asset name {asset.name} is a duplicate'
-                        ' and we do not allow duplicates.'
-                    )
+
+        if asset.name in self.asset_names:
+            if allow_duplicate_names:
+                # The name extended with the id can itself be in use
+                # already, keep extending it until it is unique.
+                new_name = asset.name + ':' + str(asset.id)
+                while new_name in self.asset_names:
+                    new_name = new_name + ':' + str(asset.id)
+                asset.name = new_name
+            else:
+                raise ValueError(
+                    f'Asset name {asset.name} is a duplicate'
+                    ' and we do not allow duplicates.'
+                )
 
         self.asset_ids.add(asset.id)
         self.next_id = max(asset.id + 1, self.next_id)
